@@ -535,6 +535,7 @@ fn spawn_part(comp: &str, build: &str, tier: Tier, seed: u64) -> Result<Option<P
             let tag = format!("{comp}/{}", if build == "simdbg" { "dbg" } else { "rel" });
             let st = Command::new(&exe)
                 .args(["case-file", comp, &run.to_string(), &seed.to_string(), &tag, "C14.crash", build, &path])
+                .env("VERIF_CASE_TIER", tier.name())
                 .status();
             if matches!(st, Ok(s) if s.success()) {
                 let mut kv = Kv::new();
@@ -566,6 +567,7 @@ fn spawn_part(comp: &str, build: &str, tier: Tier, seed: u64) -> Result<Option<P
                     let tag = format!("{comp}/{}", if build == "simdbg" { "dbg" } else { "rel" });
                     let st = Command::new(&exe)
                         .args(["case-file", comp, &run.to_string(), &seed.to_string(), &tag, check, build, &path])
+                        .env("VERIF_CASE_TIER", tier.name())
                         .status();
                     if !matches!(st, Ok(s) if s.success()) {
                         return Err(format!("HANG in component {comp} build {build} run {run}; could not write a replay file"));
@@ -913,7 +915,12 @@ fn case_file<P: Prop>(
     path: &str,
 ) {
     let mut rng = rng::Rng::new(rng::mix(seed, tag, run));
-    let case = p.gen(&mut rng, Tier::Quick);
+    // the generators of some components depend on the tier (stream lengths)
+    let tier = std::env::var("VERIF_CASE_TIER")
+        .ok()
+        .and_then(|t| Tier::parse(&t))
+        .unwrap_or(Tier::Quick);
+    let case = p.gen(&mut rng, tier);
     let v = framework::Violation {
         check,
         signature: signature.to_string(),
